@@ -256,7 +256,7 @@ def generate(unit):
             body_first = len(out) + 1
             body_lines = body.split("\n")
             out.extend(body_lines)
-            probes.append({"id": kv["id"], "body_first_line": body_first})
+            probes.append({"id": kv["id"], "body_first_line": body_first, "body_n_lines": len(body_lines)})
             fn_props[sig_line] = (kv["id"], kv.get("props", ""))
         else:
             text = src[sig_start:end] if not blk["keepattrs"] else src[item_start:end]
@@ -565,32 +565,92 @@ def run_unit(unit, pid, tier, seed):
     }
 
 
+def _exit_probe_line(body_lines):
+    """0-based index (within body_lines) of the line AFTER which an exit probe can be inserted:
+    the last line at brace depth 1 that ends a statement (`;`) or a nested block (`}`), i.e. just
+    before the tail expression or the closing brace. None if the body is one expression."""
+    text = "\n".join(body_lines)
+    mask = rscan.code_mask(text)
+    depth = 0
+    pos = 0
+    best = None
+    for i, line in enumerate(body_lines):
+        for j, ch in enumerate(line):
+            if mask[pos + j]:
+                if ch in "{([":
+                    depth += 1
+                elif ch in "})]":
+                    depth -= 1
+        code = "".join(ch for j, ch in enumerate(line) if mask[pos + j]).rstrip()
+        # only `;` ends a statement for sure: a `}` at depth 1 may close the tail expression
+        if depth == 1 and code and code.endswith(";"):
+            best = i
+        pos += len(line) + 1
+    return best
+
+
 def vacuity_probe(unit, gen, gpath):
-    """Second run: `assert(false)` as first statement of every extracted exec function must FAIL;
-    if it verifies, that function's precondition (or the preamble) is contradictory."""
+    """Second run: `assert(false)` as FIRST statement of every extracted exec function must fail
+    (else its precondition or the preamble is contradictory), and `assert(false)` placed after
+    its LAST statement - just before the tail expression / closing brace - must fail too (else
+    some assumed callee contract on the way is contradictory and everything after it verifies
+    vacuously). Functions whose end is unreachable by design are listed in the unit as
+    `//@@no-exit-probe <id>`."""
     lines = gen["text"].split("\n")
-    probe_lines = {}
+    skip_exit = set(re.findall(r"//@@no-exit-probe\s+(\S+)", gen["text"]))
+    entry, exit_ = {}, {}
+    inserts = []  # (0-based line index after which to insert, text, kind, id)
     for p in gen["probes"]:
-        ln = p["body_first_line"]  # line holding the body's opening '{' (body starts with '{')
+        ln = p["body_first_line"]  # 1-based line holding the body's opening '{'
         l = lines[ln - 1]
         if not l.lstrip().startswith("{"):
             continue
-        idx = l.index("{")
-        lines[ln - 1] = l[: idx + 1] + " proof { assert(false); } /*VACUITY-PROBE*/" + l[idx + 1 :]
-        probe_lines[ln] = p["id"]
-    if not probe_lines:
+        body = lines[ln - 1 : ln - 1 + p["body_n_lines"]]
+        k = _exit_probe_line(body)
+        if k is not None and k > 0 and p["id"] not in skip_exit:
+            inserts.append((ln - 1 + k, "proof { assert(false); } /*EXIT-PROBE*/", "exit", p["id"]))
+        inserts.append((ln - 1, None, "entry", p["id"]))
+    if not inserts:
         return []
-    ppath = gpath.replace("_gen.rs", "_probe.rs")
-    write(ppath, "\n".join(lines))
-    res = run_verus(ppath)
-    hit = set()
-    for d in res["diags"]:
-        if d.get("level") == "error" and "assertion failed" in d.get("message", ""):
-            for s in d.get("spans", []):
-                if s["line_start"] in probe_lines:
-                    hit.add(s["line_start"])
-    missing = [probe_lines[l] for l in probe_lines if l not in hit]
-    return [f"vacuity probe: assert(false) at entry of {m} was not refuted (contradictory requires/preamble?)" for m in missing]
+    # Two separate runs: after a failed assert Verus assumes it, so an entry probe would make the
+    # exit probe of the same function vacuously true.
+    problems = []
+    for which in ("entry", "exit"):
+        out = list(lines)
+        for idx, txt, kind, pid_ in sorted([t for t in inserts if t[2] == which], key=lambda t: -t[0]):
+            if kind == "entry":
+                l = out[idx]
+                j = l.index("{")
+                out[idx] = l[: j + 1] + " proof { assert(false); } /*ENTRY-PROBE:" + pid_ + "*/" + l[j + 1 :]
+            else:
+                out.insert(idx + 1, txt.replace("EXIT-PROBE", "EXIT-PROBE:" + pid_))
+        marks = {}
+        for n, l in enumerate(out, 1):
+            m = re.search(r"/\*(?:ENTRY|EXIT)-PROBE:([^*]+)\*/", l)
+            if m:
+                marks[n] = m.group(1)
+        if not marks:
+            continue
+        ppath = gpath.replace("_gen.rs", f"_probe_{which}.rs")
+        write(ppath, "\n".join(out))
+        res = run_verus(ppath)
+        hit = set()
+        hard = []
+        for d in res["diags"]:
+            if d.get("level") != "error":
+                continue
+            if "assertion failed" in d.get("message", ""):
+                for sp in d.get("spans", []):
+                    hit.add(sp["line_start"])
+            elif not any(v in d.get("message", "") for v in VERIFICATION_ERRORS) and not d.get("message", "").startswith("aborting"):
+                hard.append(d.get("message", ""))
+        if hard:
+            problems.append(f"vacuity probe ({which}): probe file does not type-check: {hard[0][:160]}")
+            continue
+        where = "at entry of" if which == "entry" else "after the last statement of"
+        why = "contradictory requires/preamble?" if which == "entry" else "a contradictory assumed callee contract makes its end unreachable?"
+        problems += [f"vacuity probe: assert(false) {where} {i} was not refuted ({why})" for n, i in marks.items() if n not in hit]
+    return problems
 
 
 def replay_record(pid, unit, o):
